@@ -249,6 +249,14 @@ func (p *Proxy) processRequest(r responder.Responder, req *http.Request, key cac
 		}
 		defer fetched.Cached.Entry.Data.Close()
 
+		// An answer from the store never looks at the request body. net/http only reads past an unread body
+		// when it keeps the connection; with "Connection: close" it closes over the unread bytes, the kernel
+		// answers with a reset and the client loses the rest of a large response. Read past it first (bounded,
+		// like net/http's own post-handler read).
+		if req.Body != nil && req.Body != http.NoBody {
+			io.CopyN(io.Discard, req.Body, 256<<10)
+		}
+
 		if clientHd.Range.IsPresent() {
 			if err := p.handleRangeRequest(r, req, fetched.Cached.Entry, key, clientHd); err != nil {
 				slog.Error("Error handling Range request", "url", req.URL, "key", key, "error", err)
